@@ -6,4 +6,7 @@ mkdir -p .deps evidence replays
 if ! PYTHONPATH="$HERE/.deps" /venv/bin/python -c "import hypothesis" 2>/dev/null; then
   /venv/bin/pip install --no-index --find-links /opt/veriftools/wheels --target "$HERE/.deps" hypothesis || exit 1
 fi
-PYTHONPATH="/repo:$HERE/.deps" /venv/bin/python -c "import hypothesis, numpy, scipy, exactpack; print('setup ok', hypothesis.__version__)"
+if ! PYTHONPATH="$HERE/.deps" /venv/bin/python -c "import atheris" 2>/dev/null; then
+  /venv/bin/pip install --no-index --find-links /opt/veriftools/wheels --target "$HERE/.deps" atheris || exit 1
+fi
+PYTHONPATH="/repo:$HERE/.deps" /venv/bin/python -c "import hypothesis, atheris, numpy, scipy, exactpack; print('setup ok', hypothesis.__version__)"
